@@ -118,7 +118,7 @@ def new_stats():
     return {"evaluations": 0, "shapes": {}, "join_kinds": {}, "aggs": {}, "impl_status": {}, "nonempty": 0,
             "model_vs_impl": {"compared": 0, "disagree": 0}, "impl_vs_oracle": {"compared": 0, "disagree": 0},
             "model_vs_oracle": {"compared": 0, "disagree": 0}, "l1_of_optimised_vs_l1_of_query": {"compared": 0, "disagree": 0},
-            "tags": {}, "distinct": set(), "physical_ops": {}, "order_sensitive_skipped": 0, "engines": {}, "limit_unordered": 0, "disk_disabled_after_timeouts": False}
+            "tags": {}, "distinct": set(), "physical_ops": {}, "order_sensitive_skipped": 0, "engines": {}, "limit_unordered": 0, "chunks_per_table": {}, "rows_per_table": {}, "disk_disabled_after_timeouts": False}
 
 
 def neutralise_limits(plan):
@@ -159,6 +159,12 @@ def run_batch(ck, cases_path, stats):
             timeouts += 1
             continue
         break
+    for c in cases:
+        for t in c["tables"]:
+            n = sum(len(ch) for ch in t["chunks"])
+            stats["chunks_per_table"][str(len(t["chunks"]))] = stats["chunks_per_table"].get(str(len(t["chunks"])), 0) + 1
+            b = "0" if n == 0 else "1" if n == 1 else "2-9" if n < 10 else "10-1024" if n <= 1024 else ">1024"
+            stats["rows_per_table"][b] = stats["rows_per_table"].get(b, 0) + 1
     # driver requests: only for cases whose plan text is a plan
     req = os.path.join(ck.work, "drv_req_%d.txt" % stats["evaluations"])
     runs = []
@@ -355,7 +361,9 @@ def run(ck):
                          "reason_tags_seen": stats["tags"], "corpus_evaluations": corpus_evals,
                          "l1_of_optimised_plan_vs_l1_of_query": stats["l1_of_optimised_vs_l1_of_query"],
                          "order_sensitive_plans_not_compared_with_model": stats["order_sensitive_skipped"],
-                         "engines": stats["engines"], "disk_disabled_after_3_timeouts": stats["disk_disabled_after_timeouts"],
+                         "engines": stats["engines"],
+                         "chunks_per_table (one INSERT = one scan chunk; clustered tables keep the partner rows in one chosen chunk)": dict(sorted(stats["chunks_per_table"].items())),
+                         "rows_per_table": stats["rows_per_table"], "disk_disabled_after_3_timeouts": stats["disk_disabled_after_timeouts"],
                          "limit_offset_without_order_by(count+membership only)": stats["limit_unordered"]},
     })
     return ck.finish(level="proof", trusted_base=[
